@@ -13,6 +13,9 @@ def build_run(nq, nt, profile="build"):
 def complete_run(nq, nt):
     return dict(kind="complete", profile="complete", mask="11111110", n_quick=nq, n_thorough=nt, extra=[])
 
+def dag_run(profile, nq, nt, extra=None):
+    return dict(kind="dag", profile=profile, mask="11111110", n_quick=nq, n_thorough=nt, shards=4, extra=extra or [])
+
 def tok_run(nq_rand, nt_rand, lq=3, lt=5):
     return dict(kind="tok", profile="tok", mask="11111110", n_quick=nq_rand, n_thorough=nt_rand, shards=1,
                 extra=["-len", str(lq)], extra_thorough=["-len", str(lt)])
@@ -63,6 +66,30 @@ PROPS = {
         runs=[dispatch_run("dispatch", "11000000", "100110", 4000, 200000), build_run(3000, 100000)],
         coq_sample=8,
         rule="trees with required options (own/inherited, with/without custom message) and help option/command at every level; non-trivial = a required option was missing or help was requested",
+    ),
+    "C13": dict(
+        runs=[dag_run("dag", 3000, 60000, ["-maxn", "6"]), dag_run("history", 1500, 30000, ["-maxn", "6"])],
+        coq_sample=12,
+        rule="random acyclic graphs of 1-6 vertices x outcome tables {nil, error, ErrorSkipParents, fail-then-succeed with retries} x parallel / SetMaxParallel 1-3 / serial x cancellation points; the harness releases one running task at a time (smallest id) and waits for quiescence, so the completion order is the one it chose; every observed trace must be accepted by the transition system (each Enter/Exit is an enabled transition, every quiescent point is maximal, Run's result is the model's); non-trivial = the graph has an edge and a task ran",
+        assumptions=["memory visibility between a dependency and its dependents is the Go memory model's (channel receive / go statement), not modelled: the theorems give the synchronisation order (completion received before the dependent's thread is created)",
+                     "quiescence is detected by a grace period; a 'ready task not started' verdict is only reported when it persists"],
+    ),
+    "C14": dict(
+        runs=[dag_run("dag", 3000, 60000, ["-maxn", "6"]), dag_run("history", 1500, 30000, ["-maxn", "5"])],
+        coq_sample=12,
+        rule="as C13; non-trivial = some outcome is not nil or the context is cancelled, and the graph has an edge; the entries of the returned *Errors value (task error / skipped / cancellation) are compared as a multiset with the model's",
+    ),
+    "C15": dict(
+        runs=[dag_run("dag", 3000, 60000, ["-maxn", "6", "-pairs", "600"]), dag_run("history", 1000, 20000, ["-maxn", "6", "-pairs", "200"])],
+        coq_sample=12,
+        rule="as C13 with limits 1-3 and serial mode; plus pairs of concurrently running graphs sharing Task objects (per-graph peak and per-Task concurrent executions counted inside the task functions); buffered output checked to arrive as one block per attempt; non-trivial = a limit or serial mode is set and at least two tasks ran",
+        assumptions=["'at no instant' is interleaving semantics over Enter/Exit events observed inside the task functions"],
+    ),
+    "C16": dict(
+        runs=[dag_run("history", 2500, 50000, ["-maxn", "6"]), dag_run("cycle", 1500, 30000, ["-maxn", "6"]), dag_run("dag", 1000, 20000, ["-maxn", "7"])],
+        coq_sample=12,
+        rule="construction histories with re-added tasks (same and fresh Task objects), duplicate and self edges, nil tasks, missing ids and functions, retries before/after edges, and closed cycles; Graph.String() must equal the model's dot text, DepthFirstSort must be a valid order exactly when the model finds no cycle, Run must return (bounded wait) and every quiescent point must be maximal; non-trivial = a task is re-added, a cycle exists, or the graph has >= 2 edges",
+        assumptions=["'Run returns on every fair schedule' is established per observed run (the acceptor reaches the Return transition), not as a termination theorem"],
     ),
     "C17": dict(
         runs=[complete_run(5000, 200000), build_run(1500, 50000)],
